@@ -397,9 +397,7 @@ func (e *encoderState) WriteToken(t Token) error {
 			break
 		}
 		e.Names.push()
-		if !e.Flags.Get(jsonflags.AllowDuplicateNames) {
-			e.Namespaces.push()
-		}
+		e.Namespaces.push() // always, since AllowDuplicateNames may change while the object is open
 		e.Flags.Clear(jsonflags.TagFlags) // tags only apply to current depth
 	case '}':
 		b = append(b, '}')
@@ -407,9 +405,7 @@ func (e *encoderState) WriteToken(t Token) error {
 			break
 		}
 		e.Names.pop()
-		if !e.Flags.Get(jsonflags.AllowDuplicateNames) {
-			e.Namespaces.pop()
-		}
+		e.Namespaces.pop()
 	case '[':
 		b = append(b, '[')
 		err = e.Tokens.pushArray()
